@@ -148,3 +148,12 @@ func BadFreshAlias(a, b []int) []int {
 	r := make([]int, 0, len(a))
 	return append(r, a...)
 }
+
+// READONLY through a method value (bound-method closure)
+func (t *T) bump() { t.n++ }
+
+func (t *T) BadObserverMethodValue() int {
+	f := t.bump
+	f()
+	return t.n
+}
